@@ -353,6 +353,7 @@ def check(prop, tier, seed):
     stage_info = []
     san_reports = {}
     ubsan = {}
+    watchdog_notes = []
 
     for si, stage in enumerate(spec['stages']):
         exe = build_harness(stage['harness'], stage['variant'], stage.get('ldextra'))
@@ -430,6 +431,14 @@ def check(prop, tier, seed):
                 if e.get('t') == 'case':
                     desc, tags = e.get('case'), e.get('tags', [])
             if rc == 0:
+                if cr.get('kind') == 'hang' or cr.get('rc') == 97:
+                    # the no-progress watchdog fired in the shard (loaded machine, slow case under valgrind), the
+                    # same case then ran to completion on its own and its oracles held: covered, recorded as a note
+                    watchdog_notes.append('case %d of %s/%s/%s tripped the %s s no-progress watchdog in its shard and passed when re-run alone'
+                                          % (idx, stage['harness'], stage.get('mode', ''), stage['variant'], 20))
+                    if any(e.get('t') == 'fail' for e in evs):
+                        inconclusive.append('case %d: watchdog in the shard, oracle failure when re-run alone' % idx)
+                    continue
                 inconclusive.append('crash at case %d (%s) did not reproduce in isolation' % (idx, cr.get('kind')))
                 continue
             cr2 = dict(cr)
@@ -483,6 +492,7 @@ def check(prop, tier, seed):
                             exhaustive=bool(spec.get('exhaustive', {}).get(tier, False)),
                             sanitizer_reports=san_reports, ubsan_observations=ubsan,
                             known_findings_seen={k: v['n'] for k, v in known_seen.items()},
+                            watchdog_retries=watchdog_notes,
                             inconclusive=inconclusive),
               assumptions=spec.get('assumptions', []), wall_s=round(wall, 2), violations=nviol)
     json.dump(ev, open(os.path.join(EVID, prop + '.json'), 'w'), indent=1, default=str)
